@@ -310,6 +310,19 @@ func runC02(r *core.Run) {
 		}
 		cases = append(cases, dirCase{Builder: "auto", Names: gen.SubsetOf(bu, mask)})
 	}
+	// names longer than any scratch buffer a builder might hash or format them
+	// in (255 is the longest name the universe had so far): 256, 257, 300 and
+	// 1000 bytes, two of them sharing their first 256 bytes
+	long := strings.Repeat("n", 256)
+	lu := []string{long, long + "x", long + "y-and-more", strings.Repeat("q", 300), strings.Repeat("é", 500), "short"}
+	for mask := 1; mask < 1<<uint(len(lu)); mask++ {
+		for _, f := range []int{8, 256} {
+			cases = append(cases, dirCase{Builder: "sharded", Fanout: f, Names: gen.SubsetOf(lu, mask)})
+		}
+		if mask%4 == 1 {
+			cases = append(cases, dirCase{Builder: "auto", Names: gen.SubsetOf(lu, mask)})
+		}
+	}
 	r.Set("extreme_universe", xu)
 	cases = append(cases, dirCase{Builder: "threshold-plain"}, dirCase{Builder: "threshold-sharded"})
 	cases = append(cases, dirCase{Builder: "sharded", Fanout: 256, NGen: 2000}, dirCase{Builder: "sharded", Fanout: 8, NGen: 600})
